@@ -8,7 +8,7 @@ Verdict clauses written by the spec are mapped to the property whose statement t
 import os, json, random, itertools, multiprocessing as mp, time
 from fractions import Fraction as F
 from ..common import (Result, run_tlc, scratch, Machinery, tlc_error_excerpt, coverage_counts, finish, OUT, rats_in, RAT_BOUND, rat,
-                      in_arith_range)
+                      in_arith_range, fork_pool)
 from .. import domains as D
 from .. import etrace
 
@@ -77,7 +77,7 @@ def record_corpus(inputs, procs=16):
         return []
     ctx = mp.get_context("fork")
     out = []
-    with ctx.Pool(procs) as pool:
+    with fork_pool(procs) as pool:
         for traces in pool.imap_unordered(_work, inputs, chunksize=max(1, min(64, len(inputs) // (procs * 4) or 1))):
             for t in traces:
                 if "_machinery" in t:
@@ -359,6 +359,18 @@ def add_slow_slice(rng, inputs, k):
         s = dict(inp)
         s["names"] = dict(zip(inp["cands"], D.sample_names(r2, len(inp["cands"]))))
         s["cand_order"] = r2.sample(list(inp["cands"]), len(inp["cands"]))
+        inputs.append(s)
+    # a many-rows slice: the same kind of profile written as 1,000 - 2,500 separate ballot rows of weight one (an uncondensed cast vote
+    # record); the abstract bag -- what the specification sees -- stays a handful of rankings with weights in the hundreds
+    pool = [i for i in base if i["ballots"] and i["cfg"]["xfer"] != "random" and i["cfg"]["rule"] != "PluralityVeto" and "names" not in i
+            and all(b["w"][1] == 1 for b in i["ballots"])]
+    for inp in r2.sample(pool, min(len(pool), max(6, k // 12))):
+        tot = sum(b["w"][0] for b in inp["ballots"])
+        f = -(-r2.randint(1001, 2500) // tot)
+        s = dict(inp)
+        rows = [{"r": b["r"], "w": [1, 1]} for b in inp["ballots"] for _ in range(b["w"][0] * f)]
+        r2.shuffle(rows)
+        s["ballots"], s["max_paths"], s["many_rows"] = rows, 40, True
         inputs.append(s)
     return inputs
 
